@@ -184,6 +184,7 @@ type mcirc struct {
 	halfS, halfD     bool // that party closed its write side
 	srcEnd, dstEnd   *end
 	hop, stop        *fstream
+	hopHs, stopHs    int64 // handshake bytes the relay wrote on each stream before any payload
 }
 
 type model struct {
